@@ -24,6 +24,8 @@ structure Cfg where
   reserved : Nat
   /-- effective unified layout (always true for file-backed arenas) -/
   unify : Bool
+  /-- backed by a memory-mapped file (only `truncate` behaves differently: it re-maps the file) -/
+  fileBacked : Bool := false
   deriving Repr, Inhabited
 
 /-- Mutable state: the byte memory (capacity = `mem.size`) and the header. For the unified layout the
@@ -477,11 +479,14 @@ def clear (c : Cfg) (s : St) : Except Err St :=
              minSeg := s.minSeg
              discarded := 0 }
 
-/-- `unsync::Arena::truncate` (all three backends have the same observable effect) -/
+/-- `unsync::Arena::truncate`: Vec and anonymous maps copy the first `allocated` bytes into a fresh zeroed
+    backing; a file-backed arena sets the file length (extending with zeros) and maps it again, so
+    bytes above the cursor that are still inside the file keep their content -/
 def truncate (c : Cfg) (s : St) (n : Nat) : Except Err St :=
   if c.ro then .error .readOnly
   else
     let size := if s.allocated ≥ n then s.allocated else n
-    .ok { s with mem := Array.ofFn (n := size) (fun i => if i.val < s.allocated then s.mem.getD i.val 0 else 0) }
+    .ok { s with mem := Array.ofFn (n := size) (fun i =>
+            if i.val < s.allocated ∨ c.fileBacked then s.mem.getD i.val 0 else 0) }
 
 end Rarena
